@@ -24,6 +24,10 @@ import (
 // ErrNoPeers is returned when there are no peers available to relay to.
 var ErrNoPeers = errors.New("no peers available")
 
+// errNoCommonHistory is the result of a sync round with a peer that recognises
+// none of the entries of our history sample.
+var errNoCommonHistory = errors.New("no common history")
+
 const (
 	// maxIPv4PrefixBits and maxIPv6PrefixBits are the largest valid prefix
 	// lengths for grouping remote addresses into subnets.
@@ -917,7 +921,7 @@ func (s *Syncer) syncLoop(ctx context.Context) error {
 						}
 						return cs, headers, remaining, nil
 					}
-					return consensus.State{}, nil, 0, errors.New("no common history")
+					return consensus.State{}, nil, 0, errNoCommonHistory
 				}()
 				respChan <- resp{peer: p, cs: cs, headers: headers, remaining: remaining, err: err}
 			}(p)
@@ -925,7 +929,14 @@ func (s *Syncer) syncLoop(ctx context.Context) error {
 		// sync each set of headers as they arrive
 		seen := make(map[types.BlockID]bool)
 		for range peers {
-			if r := <-respChan; r.err != nil {
+			if r := <-respChan; errors.Is(r.err, errNoCommonHistory) {
+				// the peer has none of the blocks of our history sample on
+				// its best chain: it was bootstrapped from a checkpoint (or
+				// pruned) above them. There is nothing we can fetch from it
+				// now, but it can fetch from us; keep the connection and ask
+				// again when it announces something we do not know.
+				r.peer.setSynced(true)
+			} else if r.err != nil {
 				r.peer.setErr(r.err)
 			} else if len(r.headers) == 0 {
 				r.peer.setSynced(true)
